@@ -52,12 +52,12 @@ def prune_dag(rng, dag, p, start=None, mdepth0=0):
 def nested_tree(rng):
     """an ordinary tree in which one subtree is replaced by a Merkle proof cell over a partly pruned version of it
     (level-1 pruned branches below the inner proof); the root has level 0"""
-    dag0 = cells.rand_ordinary_dag(rng, rng.choice([3, 5, 8, 12]), max_bits=60, share=0)
+    dag0 = cells.rand_ordinary_dag(rng, rng.choice([5, 8, 12, 20]), max_bits=60, share=0)
     if len(dag0) < 2:
         return dag0
     info0 = cells.ref_hd(dag0)
     x = rng.randrange(len(dag0) - 1)
-    inner, _ = prune_dag(rng, dag0, rng.choice([0, .3, .6]), start=x)
+    inner, _ = prune_dag(rng, dag0, rng.choice([.3, .6, .8]), start=x)
     out, remap = [], {}
 
     def emit(i):
@@ -76,6 +76,27 @@ def nested_tree(rng):
         return len(out) - 1
     emit(len(dag0) - 1)
     return out
+
+
+def nested_two_level(rng):
+    """a proof whose virtual tree has, under ONE ordinary parent, a level-1 pruned branch (pruned by an inner Merkle
+    proof of the original tree) and a level-2 pruned branch (pruned by this proof below that inner proof): the parent's
+    level mask is 0b11, the union of two incomparable masks"""
+    rb = lambda: cells.rand_bits(rng, rng.choice([3, 8, 20]))
+    a, b, dd = (-1, rb() + "0", []), (-1, rb() + "1", []), (-1, rb(), [])
+    orig_parent = [a, b, (-1, rb(), [0, 1])]
+    ip = cells.ref_hd(orig_parent)
+    pa = cells.pruned_node(1, [ip[0][1][0]], [ip[0][2][0]])                  # A pruned by the inner proof
+    inner_virtual = [pa, b, (-1, orig_parent[2][1], [0, 1])]
+    # the ORIGINAL tree: root[ M(inner_virtual), D ]
+    orig = inner_virtual + [cells.mproof_node(ip[2][1][0], ip[2][2][0], 2), dd, (-1, rb(), [3, 4])]
+    io = cells.ref_hd(orig)
+    # this proof prunes B (level 0, below one Merkle cell of the original) with mask 0b10
+    pb = cells.pruned_node(2, [io[1][1][0]], [io[1][2][0]])
+    virt = [pa, pb, (-1, orig_parent[2][1], [0, 1]), orig[3], dd, (-1, orig[5][1], [3, 4])]
+    virt[3] = cells.mproof_node(ip[2][1][0], ip[2][2][0], 2)
+    root = io[5]
+    return virt + [cells.mproof_node(root[1][0], root[2][0], 5)], root[1][0], 2
 
 
 def proof_dag(rng, dag, p):
@@ -102,11 +123,13 @@ def run(ctx):
     rng = ctx.rng
     valid, mutated = [], []
     for _ in range(ctx.n(250, 3000)):
-        if rng.random() < 0.25:
+        if rng.random() < 0.4:
             dag = nested_tree(rng)       # the tree itself contains a Merkle proof cell: holes below it need mask 0b10
         else:
             dag = cells.rand_ordinary_dag(rng, rng.choice([1, 2, 3, 5, 8, 15]), max_bits=100, share=rng.choice([0, .3]))
         pd, h, npr = proof_dag(rng, dag, rng.choice([0, .2, .5, .9]) if not any(t == 3 for t, _, _ in dag) else rng.choice([.5, .8]))
+        if rng.random() < 0.05:
+            pd, h, npr = nested_two_level(rng)
         valid.append((pd, h.hex(), npr))
         # mutations
         k = rng.random()
@@ -279,6 +302,14 @@ def account_case(ctx, rng):
             r = "ok"
         except Exception as e:
             r = "err " + type(e).__name__
+        # the rarely used return_account_descr=True must take the same decision
+        try:
+            check_account_proof(proof, SimpleNamespace(root_hash=root_hash), addr, claimed, True)
+            r2 = "ok"
+        except Exception as e:
+            r2 = "err " + type(e).__name__
+        if (r == "ok") != (r2 == "ok"):
+            r = "ok" if r2 == "ok" else r          # an acceptance on either path counts
         ACC_CORR.append((name, r, model_line(claimed, root_hash)))
         return r
     if both("genuine", genuine, blk.root_hash) != "ok":
@@ -294,7 +325,19 @@ def account_case(ctx, rng):
             return f"{name}: a claimed state whose own hash is not the committed one was accepted"
     if both("blockhash", genuine, rng.randbytes(32)) == "ok":
         return "blockhash: proof accepted against another block hash"
+    # history: an account proved in an EARLIER shard state and absent from this one must not be accepted here
+    for old_addr, old_state in LAST_ACCOUNT:
+        if int.from_bytes(old_addr.hash_part, "big") not in ids:
+            try:
+                check_account_proof(proof, blk, old_addr, old_state)
+                return "stale: an account of an earlier shard state, absent from this one, was accepted for this block"
+            except Exception:
+                pass
+    LAST_ACCOUNT[:] = [(addr, genuine)]
     return "ok"
+
+
+LAST_ACCOUNT = []
 
 
 ACC_CORR = []
